@@ -15,6 +15,7 @@ import (
 	"iter"
 	"math"
 	"os"
+	"path"
 	"slices"
 	"strconv"
 	"strings"
@@ -626,14 +627,14 @@ func printsNothing(n *node) bool {
 }
 
 func (t *Tree) Compile(file string, args []string, out io.Writer) (err error) {
-	t.AddImport("fmt")
+	/* what the runtime itself imports */
+	own := []string{"fmt", "slices", "strconv"}
 	if t.Ast {
-		t.AddImport("io")
-		t.AddImport("os")
-		t.AddImport("bytes")
+		own = append(own, "io", "os", "bytes")
 	}
-	t.AddImport("slices")
-	t.AddImport("strconv")
+	for _, imp := range own {
+		t.AddImport(imp)
+	}
 	t.EndSymbol = 0x110000
 	t.RulesCount++
 
@@ -692,6 +693,12 @@ func (t *Tree) Compile(file string, args []string, out io.Writer) (err error) {
 		return strings.Compare(a, b)
 	})
 	t.Imports = slices.Compact(t.Imports)
+	/* import fmt "fmt" in the grammar declares the name the runtime's own
+	   import "fmt" declares: the grammar's is enough */
+	all := slices.Clone(t.Imports)
+	t.Imports = slices.DeleteFunc(t.Imports, func(imp string) bool {
+		return slices.Contains(own, imp) && slices.Contains(all, imp+"="+path.Base(imp))
+	})
 
 	/* second pass */
 	for _, n := range slices.Collect(t.Iterator()) {
